@@ -105,6 +105,41 @@ theorem cv_empty (c : VCombiner) (ps : List (List Val)) (h : ps.flatten = []) :
   | nil => rfl
   | cons r rest => exact absurd (by rw [hm]; simp) (hk r.key)
 
+/-- … and only an empty input does -/
+theorem cv_empty_iff (c : VCombiner) (ps : List (List Val)) :
+    combineMerge c (ps.map (combineLocalPairs c)) = [] ↔ ps.flatten = [] := by
+  constructor
+  · intro h
+    cases hf : ps.flatten with
+    | nil => rfl
+    | cons r rows =>
+      have := (cv_keys_exact c ps r.key).mpr (by rw [hf]; simp)
+      rw [h] at this
+      simp at this
+  · exact cv_empty c ps
+
+/-- "for every partitioning": two partition lists holding the same row sequence (any cuts, empty partitions anywhere)
+    give the identical output -/
+theorem cv_partitioning_irrelevant (hc : LawfulCombiner c R) (ps qs : List (List Val))
+    (h : ps.flatten = qs.flatten) :
+    combineMerge c (ps.map (combineLocalPairs c)) = combineMerge c (qs.map (combineLocalPairs c)) := by
+  rw [combineValues_contract hc ps, combineValues_contract hc qs, h]
+
+/-- "exactly one (key, result) per distinct input key", counted: as many rows as there are distinct keys, for any
+    combiner (lawful or not) and any partitioning -/
+theorem cv_row_count (c : VCombiner) (ps : List (List Val)) :
+    (combineMerge c (ps.map (combineLocalPairs c))).length = (addKeys [] (ps.flatten.map Val.key)).length := by
+  have hk : (combineMerge c (ps.map (combineLocalPairs c))).map Val.key = addKeys [] (ps.flatten.map Val.key) := by
+    rw [combineLocalPairs_eq, combineMerge_eq, keys_encAccs, keys_combineOut, map_decAccs_locals]
+    exact keys_mergeAccs_of_keys c (localAccs c) (keys_localAccs c) ps
+  rw [← hk, List.length_map]
+
+/-- … which is the number of groups `group_by_key` forms on the same input (C04): combining per key neither merges nor
+    splits keys -/
+theorem cv_row_count_eq_gbk (c : VCombiner) (ps : List (List Val)) :
+    (combineMerge c (ps.map (combineLocalPairs c))).length = (mergeGroups (ps.map groupRows)).length := by
+  rw [cv_row_count, ← keys_mergeGroups_groupRows ps, List.length_map]
+
 /-- witnesses (tests, not the theorems): `Sum` per key over three partitions, one empty, key 1 straddling -/
 example :
     combineMerge Comb.sum.toCombiner
